@@ -21,6 +21,7 @@ import Atomman.Prelude
 import Atomman.Generated.VoigtTables
 import Atomman.Generated.CrystalCij
 import Atomman.Generated.AxesCheck
+import Atomman.Generated.InitRoute
 
 namespace Atomman.C11
 open Atomman.Gen
@@ -382,4 +383,40 @@ def finalState (inv : M6 K → Option (M6 K)) : M6 K → List (Op K) → M6 K
   | st, op :: rest => finalState inv (step inv st op).1 rest
 
 end model
+/-! ### `ElasticConstants.__init__`: which branch a keyword set takes (GENERATED chain, program order) -/
+
+def testHolds (keys : List String) : InitTest → Bool
+  | .lenIn ns => ns.contains keys.length
+  | .has k => keys.contains k
+
+/-- outcome of `__init__`'s routing: zero matrix / the setter of a matrix keyword / the `assert len(kwargs) == 1`
+    of a matrix keyword fails / a crystal-system (or `isotropic`, `model`) method is entered / the final `else`. -/
+inductive Route where
+  | zeros
+  | set (k : String)
+  | assertFail
+  | call (m : String)
+  | raise (e : String)
+  deriving DecidableEq, Repr
+
+def actRun (keys : List String) : InitAct → Route
+  | .zeros => .zeros
+  | .setter k n => if keys.length = n then .set k else .assertFail
+  | .call m => .call m
+  | .callIf k a b => if keys.contains k then .call a else .call b
+
+/-- `ElasticConstants(**{k: …})` for the keyword SET `keys` (distinct names): the first branch of the chain whose test
+    holds decides; no branch: the final `raise`. -/
+def initRoute (keys : List String) : Route :=
+  match initChain.find? (fun b => testHolds keys b.1) with
+  | some b => actRun keys b.2
+  | none => .raise initElse
+
+def Route.show : Route → String
+  | .zeros => "zeros"
+  | .set k => "set " ++ k
+  | .assertFail => "assert"
+  | .call m => "call " ++ m
+  | .raise e => "raise " ++ e
+
 end Atomman.C11
